@@ -37,7 +37,7 @@ class KernelSummary:
         self.env = {}
 
 
-def summarize(model, func, env=None, call_hook=None):
+def summarize(model, func, env=None, call_hook=None, stmts=None):
     ks = KernelSummary()
     counter = [0]
     stack = []
@@ -85,6 +85,6 @@ def summarize(model, func, env=None, call_hook=None):
 
     vn = KVN(model, func, loop_hook=loop_hook, call_hook=call_hook)
     st = State(dict(env or {}))
-    outs = vn.run(func.body, st)
+    outs = vn.run(stmts if stmts is not None else func.body, st)
     ks.env = outs[0].env if outs else {}
     return ks
